@@ -10,6 +10,12 @@ next one.  Two modes:
   * line mode    — `sys.settrace`: threads park before every source line of the handler functions and of
                    `bptk.run_step`; schedules = explicit switch points at line granularity (all single
                    switch points in thorough, sampled in quick); visible actions are only logged.
+  * refusal sandwiches — directed schedules for every ordered triple (A, B, C) of request kinds: B stops before its
+                   acquisition attempt, A acquires and advances j scheduling points, B ends (refused while A holds),
+                   C arrives and ends, A ends; every j at action level, sampled / every j at line level;
+  * thread programs — every handler alone under `sys.settrace` against a recording stub of the instance (the real
+                   class code bound to a recording state): the recorded accesses become per-run obligations
+                   `prog_*` (`decide`) against the model's program of that request kind.
 Every run yields a global log of visible actions = a schedule of the Lean model (Drive/C18), which predicts
 labels, statuses, step times, clock and lock; both are diffed.  Independently of the model the run is
 checked against the statement of C18 (reference check) — a failure there is a violation with the schedule
@@ -998,7 +1004,7 @@ def session_race(world, which, at):
     st = {"done": False, "status": None}
 
     def chooser(enabled, pending, current, k):
-        if not st["done"] and _acquired(0) and sum(1 for l in CTL.log if l[0] == 0) >= at:
+        if not st["done"] and _acquired(0) and sum(1 for l in CTL.log if l[0] == 0 and not l[3]) >= at:
             st["done"] = True
             if which == "begin":
                 r = world.client.post(f"/{world.id}/begin-session",
@@ -1201,11 +1207,11 @@ def _run(chk, world):
     # line granularity: every single switch point (thorough) / sampled (quick), plus sampled double switches
     TRACER.setup()
     nsl = 0
-    for scn, rec, span in sandwiches(world, rng, True, 2 if chk.quick else 12):
+    for scn, rec, span in sandwiches(world, rng, True, 2 if chk.quick else None):
         cases.append((scn, rec, "line"))
         note_sandwich(scn, rec, "line")
         nsl += 1
-    dist["refusal sandwiches (line level): 27 ordered kind triples x sampled line positions in the holder's critical section"] = nsl
+    dist["refusal sandwiches (line level): 27 ordered kind triples x " + ("2 sampled line positions" if chk.quick else "every line position") + " in the holder's critical section"] = nsl
     nline = 0
     line_scns = two if not chk.quick else [two[i] for i in (1, 2, 4)]
     for scn in line_scns:
